@@ -2,6 +2,7 @@ PROP = dict(level="exploration", parts=[
     py("opts", "C11_opts.py", ninja=TOOLS, make=["C11_drv"], shards=(16, 16)),
     cxx("roundtrip", "C11_prop", ninja=TOOLS, shards=(8, 16), args=["--mode", "rt"]),
     cxx("cast", "C11_prop", ninja=TOOLS, shards=(4, 8), args=["--mode", "cast"]),
+    cxx("reuse", "C11_prop", ninja=TOOLS, shards=(4, 12), args=["--mode", "reuse"]),
 ])
 TEXT = dict(engine="bsx", design_ref="DESIGN.md §3 C11",
    technique="exhaustive enumeration of user option trees per shipped calculator description against an independent interpreter of the description format; exhaustive small-scope enumeration of property trees (XML write/load) and of literals (as<T>)",
